@@ -3,6 +3,7 @@ import Nsq.Model.Chan
 import Nsq.Model.ChanNsqd
 import Nsq.Model.ChanInv
 import Nsq.Model.Pump
+import Nsq.Model.TopicPause
 /-! Driver for engine E2 (nsqd / topic / channel / client state machine).
 One operation per input line, one canonical answer line out (DESIGN Appendix B). -/
 open Nsq Nsq.Line
@@ -139,6 +140,31 @@ def apply (s : State) (op : Nsq.Model.ChanNsqd.Op) (sorted : Bool := false) : St
   let r := step s op
   (r.1, if sorted then showSorted r.2 else showOut r.2)
 
+/-- one token of a `tpause` line (leg `busypause`, audit A10): a micro-step of `Nsq.Model.TopicPause` -/
+def tpTok (w : String) : Option Nsq.Model.TopicPause.Op :=
+  open Nsq.Model.TopicPause in
+  match w with
+  | "u" => some .updAck
+  | "s" => some .start
+  | "A" => some .pauseAck
+  | "S0" => some (.storeFlag false)
+  | "S1" => some (.storeFlag true)
+  | _ =>
+    match w.toList with
+    | 'm' :: r => (nat? (String.ofList r)).map .mapChange
+    | 'p' :: r => (nat? (String.ofList r)).map .pub
+    | 'f' :: r => (nat? (String.ofList r)).map .fan
+    | _ => none
+
+/-- replay a schedule through the topic-pause model (hand-shake on): `+` accepted, `-` refused, `?` unknown token -/
+def tpRun (s : Nsq.Model.TopicPause.St) : List String → String
+  | [] => ""
+  | w :: ws => match tpTok w with
+    | none => "?" ++ tpRun s ws
+    | some op =>
+      let r := Nsq.Model.TopicPause.step true s op
+      (if r.2 then "+" else "-") ++ tpRun r.1 ws
+
 def stepLine (s : State) (line : String) : State × String :=
   match words line with
   | ["conf", memq, maxrdy, maxmsgto, maxreq] =>
@@ -232,6 +258,7 @@ def stepLine (s : State) (line : String) : State × String :=
   | ["inv"] => (s, Nsq.Model.ChanInv.invReport s)
   | ["rchan", eph, memq, mem, dq, mc, q, ifs, dfs, cls] => (s, rchanCheck eph memq mem dq mc q ifs dfs cls)
   | ["reset"] => ({}, "ok")
+  | "tpause" :: toks => (s, tpRun {} toks)
   | _ => (s, "bad-op")
 
 /-- lines of the pump / output-buffer leg (`P …`, harness/e2/e2_pump_test.go) -/
